@@ -30,7 +30,7 @@ let pct_decode (s : string) : string =
 let subst adm t =
   (* ${fn:T}: a value derived from the credential T - symbolic: a distinct value without spaces that is neither the
      admin token nor in the table (the harness skips derivations that reproduce the credential itself) *)
-  let t = Str.global_substitute (Str.regexp "\\${\\([a-z0-9]+\\):\\([AU]\\)}")
+  let t = Str.global_substitute (Str.regexp "\\${\\([a-z0-9]+\\):\\([AUX]\\)}")
       (fun s -> "DERIVED-" ^ Str.matched_group 1 s ^ "-OF-" ^ Str.matched_group 2 s) t in
   (* one pass: the admin literal may itself contain '$' *)
   Str.global_substitute (Str.regexp "\\$[AURX]")
